@@ -12,6 +12,7 @@ import (
 	"fmt"
 	"os"
 	"path/filepath"
+	"regexp"
 	"runtime"
 	"sort"
 	"strings"
@@ -56,6 +57,9 @@ func clip(s string, n int) string {
 // key prefix of the "second generation from the same parsed module" pair in the result of repeat
 const again = "again:"
 
+// key prefix of the runs of a generator after the other generators ran in another order
+const reorder = "reorder:"
+
 func repeat(gens []*generator, in *input, reps int) map[string][]string {
 	outs := map[string][]string{}
 	for r := 0; r < reps; r++ {
@@ -90,6 +94,22 @@ func repeat(gens []*generator, in *input, reps int) map[string][]string {
 				o = runOn(g, nil, in)
 			}
 			outs[g.name] = append(outs[g.name], o)
+		}
+		if r == 0 && perr == nil && m != nil {
+			// the generators once more in two OTHER orders (reversed; rotated by a third), each on a fresh copy of the
+			// parsed module: what a generator leaves behind in package-level state must not change what another one
+			// (or itself) produces afterwards
+			n := len(gens)
+			for _, ord := range [][2]int{{n - 1, -1}, {n / 3, 1}} {
+				for k := 0; k < n; k++ {
+					g := gens[((ord[0]+ord[1]*k)%n+n)%n]
+					if !strings.HasPrefix(g.kind, "sysl") || len(outs[g.name]) == 0 {
+						continue
+					}
+					o := runOn(g, proto.Clone(m).(*sysl.Module), in)
+					outs[reorder+g.name] = append(outs[reorder+g.name], o)
+				}
+			}
 		}
 	}
 	return outs
@@ -149,6 +169,7 @@ type runner struct {
 	findings []finding
 	seenKey  map[string]int
 	cases    *common.Cases
+	sortCases *common.Cases
 	jobs     []*job
 }
 
@@ -216,6 +237,13 @@ func (r *runner) judge(gens []*generator, in *input, reps int, stream string) ma
 func (r *runner) account(gens []*generator, in *input, reps int, stream string, outs map[string][]string) {
 	for _, g := range gens {
 		os_ := outs[g.name]
+		// a generator that is repeated only a few times (arr.ai-backed ones: 2x in the quick tier): the runs in the other
+		// orders count as further repetitions - with so few runs a difference there cannot be told from plain
+		// non-determinism, and `order-leak` must not be reported for it
+		fewReps := len(os_) < 4
+		if fewReps {
+			os_ = append(append([]string{}, os_...), outs[reorder+g.name]...)
+		}
 		n := distinct(os_)
 		nontrivial := len(os_[0]) > 0 && !strings.HasPrefix(os_[0], "PARSE-ERROR") && !strings.Contains(os_[0], "PANIC: ")
 		r.c.Count(g.name+"/"+digest(in.Text+in.Old), nontrivial)
@@ -237,9 +265,38 @@ func (r *runner) account(gens []*generator, in *input, reps int, stream string, 
 					g.name, stream, len(in.Text), firstDiff(pair[0], pair[1])),
 				replay{Generator: g.name, Input: *in, Reps: reps * 4, Note: "again"}, len(in.Text)})
 		}
+		if n == 1 && !fewReps {
+			for _, o := range outs[reorder+g.name] {
+				if o != os_[0] {
+					if g.name == "export:proto" && sameModuloEnumAliasOrder([]string{os_[0], o}) {
+						// the listed arr.ai `orderby` tie (which of two names of one enum value comes first): within one
+						// process it shows up between evaluations in different contexts rather than between repetitions
+						r.seenKey["nondeterministic:export:proto:enum-alias-order"]++
+						r.findings = append(r.findings, finding{"nondeterministic:export:proto:enum-alias-order",
+							fmt.Sprintf("export:proto: output differs between evaluations in one process only in the order of enum members with one value (one %s input, %d bytes); first difference %s",
+								stream, len(in.Text), firstDiff(os_[0], o)),
+							replay{Generator: g.name, Input: *in, Reps: reps * 4, Note: "reorder"}, len(in.Text)})
+						break
+					}
+					r.c.Hist("failure-kind:order-leak")
+					r.findings = append(r.findings, finding{"order-leak:" + g.name,
+						fmt.Sprintf("%s: the output on a fresh copy of the parsed module differs after the other generators ran in another order in the same process (one %s input, %d bytes); first difference %s",
+							g.name, stream, len(in.Text), firstDiff(os_[0], o)),
+						replay{Generator: g.name, Input: *in, Reps: reps * 4, Note: "reorder"}, len(in.Text)})
+					break
+				}
+			}
+			if len(outs[reorder+g.name]) > 0 {
+				r.c.Hist("reordered-runs")
+			}
+		}
 		if n > 1 {
 			a, b := differing(os_)
 			key := "nondeterministic:" + g.name
+			if g.name == "export:proto" && sameModuloEnumAliasOrder(os_) {
+				// the only difference is the order of `NAME = n;` lines of one enum that carry the same n
+				key += ":enum-alias-order"
+			}
 			r.seenKey[key]++
 			r.findings = append(r.findings, finding{key,
 				fmt.Sprintf("%s: %d distinct outputs in %d in-process runs on one %s input (%d bytes); first difference %s",
@@ -257,6 +314,39 @@ func (r *runner) flush() {
 	}
 }
 
+var reEnumMember = regexp.MustCompile(`^\s*(\w+) = (-?\d+);$`)
+
+// sameModuloEnumAliasOrder: are all outputs equal once every run of consecutive `NAME = n;` lines with one n is sorted?
+func sameModuloEnumAliasOrder(outs []string) bool {
+	norm := func(s string) string {
+		ls := strings.Split(s, "\n")
+		for i := 0; i < len(ls); {
+			m := reEnumMember.FindStringSubmatch(ls[i])
+			if m == nil {
+				i++
+				continue
+			}
+			j := i + 1
+			for j < len(ls) {
+				m2 := reEnumMember.FindStringSubmatch(ls[j])
+				if m2 == nil || m2[2] != m[2] {
+					break
+				}
+				j++
+			}
+			sort.Strings(ls[i:j])
+			i = j
+		}
+		return strings.Join(ls, "\n")
+	}
+	for _, o := range outs[1:] {
+		if norm(o) != norm(outs[0]) {
+			return false
+		}
+	}
+	return true
+}
+
 func inputOf(m *model) *input {
 	return &input{Text: m.render(), Project: m.Project, SeqProj: m.SeqProj, Group: m.Group,
 		Apps: append(m.appNames(), m.Project, m.SeqProj)}
@@ -266,7 +356,7 @@ func main() {
 	c := common.Setup("C19")
 	defer c.Finish()
 	r := &runner{c: c, seenKey: map[string]int{}}
-	c.Res.Rule = "each case = one (generator+option set, input) pair run N times in-process (input re-parsed per repetition) plus a second generation from the SAME parsed module in the same process (run 1 vs run 2); inputs: generated Sysl models with 2..9 entries in every map the generators walk and names whose byte order differs from declaration order, two-file models whose tables and columns sit on EQUAL line numbers (sort-key ties), older/newer model pairs for the delta script, generated and corpus OpenAPI3/Swagger/XSD specs for import, the repository's tests/*.sysl; distinct = distinct (generator, input text); non-trivial = the generator produced output (no parse error, no panic)"
+	c.Res.Rule = "each case = one (generator+option set, input) pair run N times in-process (input re-parsed per repetition) plus a second generation from the SAME parsed module in the same process (run 1 vs run 2); inputs: generated Sysl models with 2..9 entries in every map the generators walk and names whose byte order differs from declaration order, two-file models whose tables and columns sit on EQUAL line numbers (sort-key ties), older/newer model pairs for the delta script, generated and corpus OpenAPI3/Swagger/XSD specs for import, the repository's tests/*.sysl, schema models of tables only (relgom code generator), enumerations with two names for one value, Swagger documents whose schema names clash after sanitising; after the first repetition every generator runs again with the generators in reversed and rotated order on fresh copies of the module (package-level state); CLI repetitions are fresh processes with GOMAXPROCS varied; distinct = distinct (generator, input text); non-trivial = the generator produced output (no parse error, no panic)"
 
 	if c.Replay != "" {
 		var rp replay
@@ -356,12 +446,24 @@ func main() {
 	}
 	for i := 0; i < nTies; i++ {
 		in := tieInput(c.Rng.Fork(), i%3)
-		gs := syslGens
+		gs := append(append([]*generator{}, syslGens...), findGen("codegen:relgom"))
 		if i == 0 || c.Thorough() {
 			gs = append(append([]*generator{}, syslGens...), slowGens...)
 		}
-		r.submit(gs, in, reps+2, "line-ties", nil)
+		r.submit(gs, in, reps+2, "line-ties", func(outs map[string][]string) { r.addSortCases(in, outs) })
 		c.Hist("stream:line-ties")
+	}
+	// stream 2c: schema models (tables only) for the relgom code generator and the database scripts
+	nSchema := 2
+	if c.Thorough() {
+		nSchema = 10
+	}
+	for i := 0; i < nSchema; i++ {
+		in := schemaInput(c.Rng.Fork(), i%3)
+		in.Old = in.Text
+		r.submit([]*generator{findGen("codegen:relgom"), findGen("db:create"), findGen("datamodel:direct"), findGen("mermaid:data-full"), findGen("pb:json")},
+			in, reps+2, "schema", nil)
+		c.Hist("stream:schema")
 	}
 	// stream 3: hostile / odd models
 	for i, in := range oddInputs(c.Rng.Fork()) {
@@ -386,6 +488,11 @@ func main() {
 		}
 		for i := 0; i < nf; i++ {
 			in := &input{Text: genForeign(c.Rng.Fork(), kind, 1+i%3)}
+			if kind != "xsd" && i%3 == 2 {
+				// two schema names that become one Sysl name (a leading digit gets a `_` prefix)
+				in.Text = withClashingSchemaNames(in.Text, kind)
+				c.Hist("stream:foreign-" + kind + "-name-clash")
+			}
 			r.submit(gs, in, rp, "generated-"+kind, nil)
 			c.Hist("stream:foreign-" + kind)
 		}
@@ -414,6 +521,9 @@ func main() {
 	}
 	if r.cases != nil {
 		r.cases.Close()
+	}
+	if r.sortCases != nil {
+		r.sortCases.Close()
 	}
 	c.Res.Extra["harness_wall_s"] = int(time.Since(t0).Seconds())
 	tm := map[string]int{}
